@@ -162,6 +162,16 @@ D = {
  'C03-dequeue-emptiness-check-hoisted': ('C03', 'Channel dequeue tests emptiness once before the CAS loop', 'one free slot left and two overlapping deliveries on two threads: dequeue returns slot 0, send panics inside the handler'),
  'C12-raw-init-swap-frees-installed': ('C12', 'WithRawSiginfo::init swaps the new channel in and frees it when the slot was occupied', 'the same number rejected twice after init ran (0, 32, 33, 65..127, forbidden): use after free, double free on drop'),
  'C12-unregister-snapshot-outside-lock': ('C12', 'unregister clones the registry through a read guard and locks only for the store', 'the drop of one instance overlapping new / add_signal / drop on another thread: a registration wiped or resurrected'),
+ 'C13-register-closes-again-on-error': ('C13', 'pipe::register closes the raw descriptor itself when register_raw fails (register_raw already did)', 'a registration that returns Err (e.g. signal 9999): the number is closed twice'),
+ 'C13-iterator-wakes-with-write': ('C13', 'the iterator\'s SelfPipeWrite wakes with WakeMethod::Write (its blocking socket pair never gets O_NONBLOCK)', 'about 280 undrained deliveries: the next one blocks in write(2) inside the handler; close() blocks the same way'),
+ 'C16-restore-default-skips-forbidden': ('C16', 'restore_default returns early for the FORBIDDEN signals', 'emulating ILL / FPE / SEGV with a non-default disposition (inside their own handler, ignored): dies of SIGABRT instead'),
+ 'C16-raise-tgkill-cached-pid': ('C16', 'low_level::raise becomes tgkill(PID, gettid(), sig) with the pid cached in a static on first use', 'raise in the parent, fork, emulation in the child: ESRCH, SIGABRT instead of the signal, stop signals do not stop'),
+ 'C02-barrier-premarks-new-slot-r5': ('C02', 'write_barrier pre-marks the new generation\'s slot as seen and waits for the old one only (round 5, independent rediscovery)', 'a delivery stalled between generation load and fetch_add across one complete write, then a second write'),
+ 'C02-add-signal-lock-dropped-r5': ('C02', 'Handle::add_signal drops the ids lock across the registry call (round 5, independent rediscovery)', 'two concurrent add_signal of one signal on clones of one handle: one delivery reported twice, an orphan action after the drop'),
+ 'C04-slot-new-clears-fallback': ('C04', 'Slot::new clears the race fallback right after its sigaction()', 'a delivery between that clear and the publication of the slot, with a real previous handler: chained zero times'),
+ 'C04-stop-emulation-reinstalls-with-signal': ('C04', 'emulate_default_handler (stop kinds) resets the signal with signal(), raises it, and puts the saved handler back with signal()', 'a siginfo handler chained on SIGTSTP, the emulation called once, then a later delivery: the library handler is back without SA_SIGINFO'),
+ 'C18-read-selects-slot-twice': ('C18', 'HalfLock::read computes the slot twice (fetch_add, then for the guard)', 'a generation switch between the two: the guard decrements the other slot, one slot stays at 1 forever, the next barrier spins'),
+ 'C18-unregister-precheck-guard-held': ('C18', 'unregister pre-checks under a read guard that is still alive while it waits for the write mutex', 'two mutators: one holds the mutex before its barrier, the other waits for the mutex holding a slot count: deadlock'),
 }
 for name, (prop, change, needs) in D.items():
     d = os.path.join(ROOT, 'seeded', name)
